@@ -443,7 +443,7 @@ Qed.
 Definition aop_wf (a : aop) : Prop :=
   match a with
   | AWatch w t n => In w all_watchers /\ 0 <= t /\ 0 <= n
-  | AResp _ _ _ rs => Forall (fun x => 0 <= snd x) rs
+  | AResp t _ _ rs => 0 <= t /\ Forall (fun x => 0 <= snd x) rs
   | _ => True
   end.
 
@@ -691,7 +691,7 @@ Proof.
   - apply stepA_unwatch; exact HJ.
   - apply stepA_allow; exact HJ.
   - apply stepA_fail; exact HJ.
-  - apply stepA_resp; assumption.
+  - destruct Hwf as [_ Hwf]. apply stepA_resp; assumption.
   - apply stepA_break; exact HJ.
   - apply stepA_expire; exact HJ.
   - apply stepA_quiet; [exact HJ|reflexivity].
@@ -716,7 +716,7 @@ Proof.
   end; cbn [aop_wf]; try exact I.
   - rewrite !andb_true_iff, !Z.leb_le in *. unfold all_watchers. cbn [In].
     repeat split; lia.
-  - eapply triples_wf; eassumption.
+  - split; [rewrite !andb_true_iff, !Z.leb_le in *; lia|eapply triples_wf; eassumption].
 Qed.
 
 Lemma take_words_app a b : take_words (length a) (a ++ b) = Some (a, b).
@@ -803,3 +803,537 @@ Lemma stream_failure_literal_refuted :
     nth_error obs 15 = Some [1; 1] /\ nth_error obs 16 = Some [0; 1; 7] /\   (* watcher 0 got ResourceChanged(7) *)
     nth_error obs 23 = Some [1; 0] /\ nth_error obs 24 = Some [0].            (* stream error: nothing *)
 Proof. exists [[3]; [1; 0; 1; 0]; [5; 1; 1; 1; 0; 1; 7]; [6]]. eexists. split; [reflexivity|]. vm_compute. repeat split. Qed.
+
+(* ================= pass B (clauses 1, 5, 6) on the whole client ================= *)
+
+Lemma cbs_A_val i : forall cbs v f, fst (fst (cbs_A i v f cbs)) = last_val v cbs.
+Proof.
+  induction cbs as [|[k a] r IH]; intros v f; [reflexivity|]. cbn [cbs_A last_val].
+  specialize (IH (if k =? 1 then a else if k =? 2 then -1 else v) (if k =? 1 then a else if a =? 1 then f else -1)).
+  destruct (cbs_A i _ _ r) as [[v2 f2] cl2]. cbn [fst] in *. exact IH.
+Qed.
+
+(* the two passes keep the same per-watcher value *)
+Lemma val_sync ign i i' m0 a ap : forall ws mA mB mA' clA mB' clB,
+  (forall w, b_val mB w = a_val mA w) ->
+  words_A i mA ws = (mA', clA) -> words_B ign i' m0 mB a ap ws = (mB', clB) ->
+  (forall w, b_val mB' w = a_val mA' w) /\ b_wm mB' = b_wm mB /\ b_live mB' = b_live mB /\ b_msg mB' = b_msg mB.
+Proof.
+  induction ws as [|wd ws IH]; intros mA mB mA' clA mB' clB Hv HA HB.
+  - cbn in HA, HB. inversion HA; inversion HB; subst. tauto.
+  - cbn [words_A words_B] in HA, HB. destruct wd as [|w l]; [inversion HA; inversion HB; subst; tauto|].
+    destruct (pairs l) as [cbs|]; [|inversion HA; inversion HB; subst; tauto].
+    destruct (cbs_A i (a_val mA w) (a_fr mA w) cbs) as [[v f] c] eqn:Ec.
+    destruct (words_A i _ ws) as [mA2 clA2] eqn:EA. inversion HA; subst mA' clA; clear HA.
+    destruct (words_B ign i' m0 _ a ap ws) as [mB2 clB2] eqn:EB. inversion HB; subst mB' clB; clear HB.
+    eapply IH in EB; [|clear EB|exact EA].
+    + exact EB.
+    + intro x. cbn [b_val a_val]. unfold updz. destruct (x =? w); [|apply Hv].
+      pose proof (cbs_A_val i cbs (a_val mA w) (a_fr mA w)) as H. rewrite Ec in H. cbn [fst] in H.
+      rewrite Hv. symmetry. exact H.
+Qed.
+
+Lemma words_B_map ign i m0 a ap (F : Z -> list cb) : forall ws m,
+  snd (words_B ign i m0 m a ap (map (fun w => w :: enc (F w)) ws)) =
+  map (fun w => (cl_of a, i, justified ign m0 a ap w (F w))) ws.
+Proof.
+  induction ws as [|w ws IH]; intro m; [reflexivity|]. cbn [map words_B]. rewrite pairs_enc.
+  specialize (IH (mkB (b_wm m) (updz (b_val m) w (last_val (b_val m w) (F w))) (b_live m) (b_msg m))).
+  destruct (words_B ign i m0 _ a ap _) as [m2 cl2]. cbn [snd] in *. rewrite IH. reflexivity.
+Qed.
+
+Lemma all_true_map {A} (f : A -> Z * Z * bool) l : (forall x, In x l -> snd (f x) = true) -> all_true (map f l) = true.
+Proof.
+  induction l as [|x l IH]; intro H; [reflexivity|]. cbn [map all_true forallb].
+  rewrite (H x (or_introl eq_refl)). apply IH. intros y Hy. apply H. right; exact Hy.
+Qed.
+
+Lemma list_eqb_refl l : list_eqb l l = true.
+Proof. induction l as [|x l IH]; cbn; [reflexivity|]. rewrite Z.eqb_refl, IH. reflexivity. Qed.
+
+(* the invariant of pass B *)
+Record JB (s : st) (m : monB) : Prop := mkJB {
+  jb_a : exists mA, JA s mA /\ forall w, b_val m w = a_val mA w;
+  jb_wm : forall w, b_wm m w = wm s w;
+  jb_live : b_live m = live s;
+  jb_msg : b_msg m = msgrecv s;
+  jb_rw : forall k w, k <> -1 -> mem w (rw (res s k)) = true -> In w all_watchers /\ wm s w = k;
+  jb_key : forall w, wm s w = -1 \/ 0 <= wm s w
+}.
+
+Lemma JB_init : JB init monB_init.
+Proof.
+  constructor; cbn; intros; try reflexivity; try discriminate; try tauto.
+  exists monA_init. split; [apply JA_init|reflexivity].
+Qed.
+
+Lemma JB_val s m w : JB s m -> b_val m w = if wm s w =? -1 then -1 else cache (res s (wm s w)).
+Proof.
+  intros HJ. destruct (jb_a _ _ HJ) as (mA & HA & Hv). rewrite Hv.
+  destruct (wm s w =? -1) eqn:E.
+  - apply Z.eqb_eq in E. apply (ja_none _ _ HA w E).
+  - apply Z.eqb_neq in E. destruct (ja_some _ _ HA w E) as ([I1 _] & _). exact I1.
+Qed.
+
+Lemma nonempty_mem l : nonempty l = true <-> exists w, mem w l = true.
+Proof.
+  destruct l as [|x l]; cbn; split; try discriminate.
+  - intros [w H]. discriminate.
+  - intros _. exists x. rewrite Z.eqb_refl. reflexivity.
+  - reflexivity.
+Qed.
+
+(* clause 5: the names of a request are the names that have a watcher *)
+Lemma names_watched s m t : JB s m -> 0 <= t -> names (res s) t = watched m t.
+Proof.
+  intros HJ Ht. unfold names, watched. apply filter_ext_in. intros n Hn.
+  assert (Hk: 4 * t + n <> -1) by (cbn in Hn; lia).
+  destruct (jb_a _ _ HJ) as (mA & HA & _).
+  destruct (nonempty (rw (res s (4 * t + n)))) eqn:E.
+  - apply nonempty_mem in E. destruct E as [w Hw]. destruct (jb_rw _ _ HJ _ _ Hk Hw) as [Hi Hwm].
+    symmetry. apply existsb_exists. exists w. split; [exact Hi|]. rewrite (jb_wm _ _ HJ). apply Z.eqb_eq. exact Hwm.
+  - symmetry. apply not_true_is_false. intro H. apply existsb_exists in H. destruct H as (w & Hi & Hw).
+    rewrite (jb_wm _ _ HJ) in Hw. apply Z.eqb_eq in Hw.
+    assert (Hne: wm s w <> -1) by lia. destruct (ja_some _ _ HA w Hne) as (_ & Hm & _). rewrite Hw in Hm.
+    assert (nonempty (rw (res s (4 * t + n))) = true) by (apply nonempty_mem; eauto). congruence.
+Qed.
+
+Lemma req_clause_ok i s m t : JB s m -> 0 <= t -> snd (req_B i m (req_word (res s) t)) = true.
+Proof.
+  intros HJ Ht. unfold req_word, req_B. cbn [app snd]. rewrite (names_watched s m t HJ Ht), list_eqb_refl. reflexivity.
+Qed.
+
+Definition stepB_ok (ign : bool) (s : st) (m : monB) (i : Z) (a : aop) : Prop :=
+  exists s' ap ws rq m' cl,
+    step ign s a = (s', mk_out ap ws rq) /\ length ws = 6%nat /\
+    words_B ign i m (opB m a ap) a ap ws = (m', cl) /\ all_true cl = true /\
+    all_true (map (req_B i m') rq) = true /\ JB s' m'.
+
+Lemma app_inv_len {A} (a b c d : list A) : length a = length c -> a ++ b = c ++ d -> a = c /\ b = d.
+Proof.
+  revert c. induction a as [|x a IH]; intros [|y c] Hl H; cbn in *; try discriminate; [tauto|].
+  inversion H; subst. destruct (IH c) as [E1 E2]; [lia|assumption|]. subst. tauto.
+Qed.
+
+Lemma opAB_sync mA m a ap : (forall w, b_val m w = a_val mA w) ->
+  forall w, b_val (opB m a ap) w = a_val (opA mA a ap) w.
+Proof.
+  intros H w. unfold opB, opA. destruct ap; cbn [negb]; [|destruct a; apply H].
+  destruct a; cbn [b_val a_val]; try apply H. unfold updz. destruct (w =? w0); [reflexivity|apply H].
+Qed.
+
+Lemma stepB_from ign s m i a s' ap cbs only rq :
+  JB s m -> aop_wf a ->
+  step ign s a = (s', mk_out ap (watcher_words s' cbs only) rq) ->
+  (forall w, In w all_watchers -> justified ign m a ap w (wcbs s' cbs only w) = true) ->
+  (forall w, b_wm (opB m a ap) w = wm s' w) -> b_live (opB m a ap) = live s' -> b_msg (opB m a ap) = msgrecv s' ->
+  (forall k w, k <> -1 -> mem w (rw (res s' k)) = true -> In w all_watchers /\ wm s' w = k) ->
+  (forall w, wm s' w = -1 \/ 0 <= wm s' w) ->
+  (forall m', JB s' m' -> all_true (map (req_B i m') rq) = true) ->
+  stepB_ok ign s m i a.
+Proof.
+  intros HJ Hwf Hs Hjust Hwm Hlive Hmsg Hrw Hkey Hreq.
+  destruct (jb_a _ _ HJ) as (mA & HA & Hv).
+  destruct (stepA_all ign s mA i a HA Hwf) as (sA & apA & wsA & rqA & mA' & clA & HsA & HlenA & HwA & _ & HJA').
+  rewrite Hs in HsA. unfold mk_out in HsA. inversion HsA as [[E1 E2 E3 E4]]. clear HsA.
+  assert (Eap: ap = apA) by (destruct ap, apA; cbn in E2; congruence). subst apA sA.
+  destruct (app_inv_len _ _ _ _ (eq_trans (ww_length s' cbs only) (eq_sym HlenA)) E4) as [Ews Erq]. subst wsA rqA.
+  destruct (words_B ign i m (opB m a ap) a ap (watcher_words s' cbs only)) as [mB' clB] eqn:EB.
+  destruct (val_sync ign i i m a ap _ _ _ _ _ _ _ (opAB_sync mA m a ap Hv) HwA EB) as (Sv & Swm & Sl & Sm).
+  assert (HJB: JB s' mB').
+  { constructor.
+    - exists mA'. split; [exact HJA'|exact Sv].
+    - intro w. rewrite Swm. apply Hwm.
+    - rewrite Sl. exact Hlive.
+    - rewrite Sm. exact Hmsg.
+    - exact Hrw.
+    - exact Hkey. }
+  exists s', ap, (watcher_words s' cbs only), rq, mB', clB.
+  split; [exact Hs|]. split; [apply ww_length|]. split; [exact EB|]. split; [|split; [apply Hreq; exact HJB|exact HJB]].
+  pose proof (words_B_map ign i m a ap (wcbs s' cbs only) all_watchers (opB m a ap)) as Hm.
+  rewrite <- watcher_words_eq, EB in Hm. cbn [snd] in Hm. rewrite Hm.
+  apply all_true_map. intros w Hw. cbn [snd]. apply Hjust. exact Hw.
+Qed.
+
+(* an op that is not applied *)
+Lemma stepB_quiet ign s m i a : JB s m -> aop_wf a -> step ign s a = (s, quiet s false []) -> stepB_ok ign s m i a.
+Proof.
+  intros HJ Hwf Hs. apply (stepB_from ign s m i a s false (fun _ => []) (-1) []); try assumption.
+  - intros w _. unfold justified. cbn [negb]. unfold wcbs. destruct (_ || _); reflexivity.
+  - intro w. cbn [opB negb]. apply (jb_wm _ _ HJ).
+  - apply (jb_live _ _ HJ).
+  - apply (jb_msg _ _ HJ).
+  - apply (jb_rw _ _ HJ).
+  - apply (jb_key _ _ HJ).
+  - intros; reflexivity.
+Qed.
+
+Lemma wcbs_events ign s s' ev w : wm s' = wm s ->
+  wcbs s' (snd (apply_events ign s ev)) (-1) w =
+  if wm s w =? -1 then [] else snd (rsteps ign (res s (wm s w)) (ev (wm s w))).
+Proof.
+  intro Hwm. unfold wcbs, apply_events. cbn [snd]. rewrite Hwm. cbn [Z.leb Z.compare andb]. rewrite orb_false_r. reflexivity.
+Qed.
+
+Lemma mem_nonnil w l : mem w l = true -> l <> [].
+Proof. destruct l; [discriminate|discriminate]. Qed.
+
+Lemma stepB_events ign s m i a (ev : Z -> list revent) s' rq :
+  JB s m -> aop_wf a ->
+  res s' = fst (apply_events ign s ev) -> wm s' = wm s ->
+  step ign s a = (s', mk_out true (watcher_words s' (snd (apply_events ign s ev)) (-1)) rq) ->
+  (forall w, wm s w = -1 -> justified ign m a true w [] = true) ->
+  (forall w, wm s w <> -1 -> rw (res s (wm s w)) <> [] ->
+     justified ign m a true w (snd (rsteps ign (res s (wm s w)) (ev (wm s w)))) = true) ->
+  (forall w, b_wm (opB m a true) w = wm s w) -> b_live (opB m a true) = live s' -> b_msg (opB m a true) = msgrecv s' ->
+  (forall m', JB s' m' -> all_true (map (req_B i m') rq) = true) ->
+  stepB_ok ign s m i a.
+Proof.
+  intros HJ Hwf Hres Hwm Hs Hj0 Hj1 Hbwm Hl Hm Hreq.
+  destruct (jb_a _ _ HJ) as (mA & HA & _).
+  apply (stepB_from ign s m i a s' true (snd (apply_events ign s ev)) (-1) rq); try assumption.
+  - intros w _. rewrite (wcbs_events ign s s' ev w Hwm). destruct (wm s w =? -1) eqn:E.
+    + apply Z.eqb_eq in E. apply Hj0. exact E.
+    + apply Z.eqb_neq in E. apply Hj1; [exact E|]. destruct (ja_some _ _ HA w E) as (_ & Hmem & _).
+      apply (mem_nonnil w). exact Hmem.
+  - intro w. rewrite Hwm. apply Hbwm.
+  - intros k w Hk Hmem. rewrite Hwm. rewrite Hres in Hmem. unfold apply_events in Hmem. cbn [fst] in Hmem.
+    rewrite rsteps_rw in Hmem. apply (jb_rw _ _ HJ k w Hk Hmem).
+  - intro w. rewrite Hwm. apply (jb_key _ _ HJ).
+Qed.
+
+Lemma stepB_fail ign s m i : JB s m -> stepB_ok ign s m i AFail.
+Proof.
+  intro HJ. destruct (live s) eqn:El.
+  - apply stepB_quiet; [exact HJ|exact I|]. cbn [step]. rewrite El. reflexivity.
+  - set (ev := fun _ : Z => [EDown; EConn]).
+    apply (stepB_events ign s m i AFail ev
+             (mkS (fst (apply_events ign s ev)) (wm s) (has s) (live s) (sender s) (msgrecv s)) []);
+      try reflexivity; try exact HJ; try exact I.
+    + cbn [step]. rewrite El. reflexivity.
+    + intros w Hw. unfold justified. cbn [negb]. rewrite (jb_wm _ _ HJ), Hw. reflexivity.
+    + intros w Hw Hr. unfold justified. cbn [negb]. rewrite (jb_wm _ _ HJ).
+      assert (E: (wm s w =? -1) = false) by (apply Z.eqb_neq; exact Hw). rewrite E.
+      unfold ev. rewrite (stream_failure_notifies ign _ Hr). destruct (cache (res s (wm s w)) =? -1); reflexivity.
+    + intro w. cbn [opB negb]. apply (jb_wm _ _ HJ).
+    + cbn [opB negb live]. apply (jb_live _ _ HJ).
+    + cbn [opB negb msgrecv]. apply (jb_msg _ _ HJ).
+Qed.
+
+Lemma stepB_break ign s m i : JB s m -> stepB_ok ign s m i ABreak.
+Proof.
+  intro HJ. destruct (live s) eqn:El.
+  2:{ apply stepB_quiet; [exact HJ|exact I|]. cbn [step]. rewrite El. reflexivity. }
+  set (ev := fun _ : Z => if msgrecv s then [EDown] else [EDown; EConn]).
+  apply (stepB_events ign s m i ABreak ev
+           (mkS (fst (apply_events ign s ev)) (wm s) (has s) false 2 (msgrecv s)) []);
+    try reflexivity; try exact HJ; try exact I.
+  - cbn [step]. rewrite El. reflexivity.
+  - intros w Hw. unfold justified. cbn [negb]. rewrite (jb_wm _ _ HJ), Hw. reflexivity.
+  - intros w Hw Hr. unfold justified. cbn [negb]. rewrite (jb_wm _ _ HJ), (jb_msg _ _ HJ).
+    assert (E: (wm s w =? -1) = false) by (apply Z.eqb_neq; exact Hw). rewrite E. cbn [orb].
+    unfold ev. destruct (msgrecv s).
+    + rewrite stream_failure_after_response_silent. reflexivity.
+    + rewrite (stream_failure_notifies ign _ Hr). destruct (cache (res s (wm s w)) =? -1); reflexivity.
+  - intro w. cbn [opB negb b_wm]. apply (jb_wm _ _ HJ).
+  - cbn [opB negb b_msg msgrecv]. apply (jb_msg _ _ HJ).
+Qed.
+
+Lemma stepB_expire ign s m i : JB s m -> stepB_ok ign s m i AExpire.
+Proof.
+  intro HJ. set (ev := fun _ : Z => [EExpire]).
+  apply (stepB_events ign s m i AExpire ev
+           (mkS (fst (apply_events ign s ev)) (wm s) (has s) (live s) (sender s) (msgrecv s)) []);
+    try reflexivity; try exact HJ; try exact I.
+  - intros w Hw. unfold justified. cbn [negb]. rewrite (jb_wm _ _ HJ), Hw. reflexivity.
+  - intros w Hw Hr. unfold justified. cbn [negb]. rewrite (jb_wm _ _ HJ).
+    assert (E: (wm s w =? -1) = false) by (apply Z.eqb_neq; exact Hw). rewrite E.
+    unfold ev. cbn [rsteps]. rewrite (expiry _ ign Hr). destruct (ws (res s (wm s w)) =? 1); reflexivity.
+  - intro w. cbn [opB negb]. apply (jb_wm _ _ HJ).
+  - cbn [opB negb live]. apply (jb_live _ _ HJ).
+  - cbn [opB negb msgrecv]. apply (jb_msg _ _ HJ).
+Qed.
+
+Lemma rsteps_single ign r e : snd (rsteps ign r [e]) = snd (rstep ign r e).
+Proof. cbn [rsteps]. destruct (rstep ign r e) as [r1 c1]. cbn. apply app_nil_r. Qed.
+
+Lemma stepB_resp ign s m i t v n rs : JB s m -> 0 <= t -> Forall (fun x => 0 <= snd x) rs ->
+  stepB_ok ign s m i (AResp t v n rs).
+Proof.
+  intros HJ Ht Hwf. destruct (live s) eqn:El.
+  2:{ apply stepB_quiet; [exact HJ|cbn; tauto|]. cbn [step]. rewrite El. reflexivity. }
+  set (ev := fun k => if ktype k =? t then resp_events (t =? 0) (kname k) rs else []).
+  set (s' := mkS (fst (apply_events ign s ev)) (wm s) (has s) true (sender s) true).
+  apply (stepB_events ign s m i (AResp t v n rs) ev s'
+           (if has s t then [req_word (fst (apply_events ign s ev)) t] else []));
+    try reflexivity; try exact HJ; try (cbn; tauto).
+  - cbn [step]. rewrite El. reflexivity.
+  - intros w Hw. unfold justified. cbn [negb]. rewrite (jb_wm _ _ HJ), Hw. reflexivity.
+  - intros w Hw Hr. unfold justified. cbn [negb]. rewrite (jb_wm _ _ HJ).
+    assert (E: (wm s w =? -1) = false) by (apply Z.eqb_neq; exact Hw). rewrite E. cbn [orb].
+    set (k := wm s w) in *. set (r := res s k) in *. unfold ev.
+    destruct (ktype k =? t) eqn:Et; cbn [negb]; [|reflexivity].
+    unfold resp_events. destruct (last_named (kname k) rs) as [[vk c]|] eqn:El2.
+    + destruct (vk =? 1).
+      * rewrite rsteps_single. unfold rstep. destruct (rw r); [contradiction|].
+        destruct (_ || _ || _); cbn [snd]; [rewrite !Z.eqb_refl; reflexivity|reflexivity].
+      * rewrite rsteps_single. unfold rstep, err_cb. destruct (rw r); [contradiction|].
+        destruct (_ || _); cbn [snd]; [|reflexivity].
+        destruct (cache r =? -1); cbn; rewrite Z.eqb_refl; reflexivity.
+    + destruct (t =? 0) eqn:E0; [|reflexivity].
+      rewrite rsteps_single. unfold rstep. destruct (rw r); [contradiction|].
+      destruct (cache r =? -1); [reflexivity|]. destruct (stat r =? 4); [reflexivity|].
+      destruct ign; cbn [snd]; reflexivity.
+  - intro w. cbn [opB negb b_wm]. apply (jb_wm _ _ HJ).
+  - cbn [opB negb b_live]. rewrite (jb_live _ _ HJ). exact El.
+  - intros m' HJ'. destruct (has s t); [|reflexivity]. cbn [map all_true forallb].
+    change (fst (apply_events ign s ev)) with (res s'). rewrite (req_clause_ok i s' m' t HJ' Ht). reflexivity.
+Qed.
+
+Lemma names_core rs rs' t : (forall k, rw (rs' k) = rw (rs k)) -> names rs' t = names rs t.
+Proof. intro H. unfold names. apply filter_ext. intro n. rewrite H. reflexivity. Qed.
+
+Lemma send_out ign s t : snd (send ign s t) = [] \/ snd (send ign s t) = [req_word (res s) t].
+Proof. unfold send. destruct (sender s =? 1); [right; reflexivity|]. destruct (sender s =? 2); left; reflexivity. Qed.
+
+Lemma req_ok_core i s s' m' t : JB s' m' -> 0 <= t -> (forall k, rw (res s' k) = rw (res s k)) ->
+  snd (req_B i m' (req_word (res s) t)) = true.
+Proof.
+  intros HJ Ht Hc. unfold req_word. rewrite <- (names_core (res s) (res s') t Hc).
+  apply (req_clause_ok i s' m' t HJ Ht).
+Qed.
+
+Lemma send_flags ign s t : live (fst (send ign s t)) = live s /\ msgrecv (fst (send ign s t)) = msgrecv s.
+Proof. unfold send. destruct (sender s =? 1); [cbn; tauto|]. destruct (sender s =? 2); cbn; tauto. Qed.
+
+Lemma stepB_allow ign s m i : JB s m -> stepB_ok ign s m i AAllow.
+Proof.
+  intro HJ. destruct (live s) eqn:El.
+  { apply stepB_quiet; [exact HJ|exact I|]. cbn [step]. rewrite El. reflexivity. }
+  set (s0 := mkS (res s) (wm s) (has s) true 1 false).
+  destruct (if has s0 0 && nonempty (names (res s0) 0) then send ign s0 0 else (s0, [])) as [s1 q0] eqn:E0.
+  destruct (if has s1 1 && nonempty (names (res s1) 1) then send ign s1 1 else (s1, [])) as [s2 q1] eqn:E1.
+  assert (C0: wm s1 = wm s /\ (forall k, core_eq (res s k) (res s1 k)) /\ live s1 = true /\ msgrecv s1 = false /\
+              (q0 = [] \/ q0 = [req_word (res s0) 0])).
+  { destruct (has s0 0 && nonempty (names (res s0) 0)).
+    - pose proof (send_core ign s0 0) as H. pose proof (send_out ign s0 0) as Ho. pose proof (send_flags ign s0 0) as Hf.
+      rewrite E0 in H, Ho, Hf. cbn [fst snd] in *. destruct H as [H1 H2]. destruct Hf as [F1 F2].
+      split; [exact H1|]. split; [exact H2|]. split; [exact F1|]. split; [exact F2|exact Ho].
+    - inversion E0; subst. split; [reflexivity|]. split; [intro; apply core_refl|]. split; [reflexivity|]. split; [reflexivity|left; reflexivity]. }
+  destruct C0 as (W0 & K0 & L0 & M0 & Q0).
+  assert (C1: wm s2 = wm s /\ (forall k, core_eq (res s k) (res s2 k)) /\ live s2 = true /\ msgrecv s2 = false /\
+              (q1 = [] \/ q1 = [req_word (res s1) 1])).
+  { destruct (has s1 1 && nonempty (names (res s1) 1)).
+    - pose proof (send_core ign s1 1) as H. pose proof (send_out ign s1 1) as Ho. pose proof (send_flags ign s1 1) as Hf.
+      rewrite E1 in H, Ho, Hf. cbn [fst snd] in *. destruct H as [H1 H2]. destruct Hf as [F1 F2].
+      split; [congruence|]. split; [intro k; eapply core_trans; [apply K0|apply H2]|].
+      split; [congruence|]. split; [congruence|exact Ho].
+    - inversion E1; subst. split; [exact W0|]. split; [exact K0|]. split; [exact L0|]. split; [exact M0|left; reflexivity]. }
+  destruct C1 as (W & K & L & M & Q1).
+  apply (stepB_from ign s m i AAllow s2 true (fun _ => []) (-1) (q0 ++ q1)); try exact HJ; try exact I.
+  - cbn [step]. rewrite El. fold s0. rewrite E0, E1. reflexivity.
+  - intros w _. unfold justified. cbn [negb]. unfold wcbs. destruct (_ || _); reflexivity.
+  - intro w. cbn [opB negb b_wm]. rewrite W. apply (jb_wm _ _ HJ).
+  - cbn [opB negb b_live]. symmetry; exact L.
+  - cbn [opB negb b_msg]. symmetry; exact M.
+  - intros k w Hk Hm. rewrite W. destruct (K k) as (C1 & _). rewrite C1 in Hm. apply (jb_rw _ _ HJ k w Hk Hm).
+  - intro w. rewrite W. apply (jb_key _ _ HJ).
+  - intros m' HJ'. rewrite map_app. unfold all_true. rewrite forallb_app. apply andb_true_intro. split.
+    + destruct Q0 as [->| ->]; [reflexivity|]. cbn [map forallb]. 
+      rewrite (req_ok_core i s0 s2 m' 0 HJ'); [reflexivity|lia|]. intro k. destruct (K k) as (C1 & _). exact C1.
+    + destruct Q1 as [->| ->]; [reflexivity|]. cbn [map forallb].
+      rewrite (req_ok_core i s1 s2 m' 1 HJ'); [reflexivity|lia|]. intro k. destruct (K k) as (C1 & _). destruct (K0 k) as (C2 & _). congruence.
+Qed.
+
+(* peers of a resource all hold its cache *)
+Lemma peer_content_spec (m : monB) k w v :
+  (forall x, In x all_watchers -> x <> w -> b_wm m x = k -> b_val m x = v) ->
+  peer_content m k w = v \/ peer_content m k w = -1.
+Proof.
+  intro H. unfold peer_content.
+  assert (G: forall l, (forall x, In x l -> In x all_watchers) ->
+             fold_right (fun x acc => if negb (x =? w) && (b_wm m x =? k) && negb (b_val m x =? -1) then b_val m x else acc) (-1) l = v \/
+             fold_right (fun x acc => if negb (x =? w) && (b_wm m x =? k) && negb (b_val m x =? -1) then b_val m x else acc) (-1) l = -1).
+  { induction l as [|x l IH]; intro Hl; [right; reflexivity|]. cbn [fold_right].
+    destruct (negb (x =? w) && (b_wm m x =? k) && negb (b_val m x =? -1)) eqn:E.
+    - left. apply andb_true_iff in E. destruct E as [E E3]. apply andb_true_iff in E. destruct E as [E1 E2].
+      apply negb_true_iff in E1. apply Z.eqb_neq in E1. apply Z.eqb_eq in E2.
+      apply H; [apply Hl; left; reflexivity|exact E1|exact E2].
+    - apply IH. intros y Hy. apply Hl. right; exact Hy. }
+  apply G. intros x Hx. exact Hx.
+Qed.
+
+Lemma replay_kinds r : forall c, In c (replay r) -> fst c = 1 -> cache r <> -1 /\ snd c = cache r.
+Proof.
+  intros c Hc H1. unfold replay, err_cb in Hc. apply in_app_or in Hc. destruct Hc as [Hc|Hc].
+  - destruct (cache r =? -1) eqn:E; [destruct Hc|]. destruct Hc as [Hc|[]]. subst c. apply Z.eqb_neq in E. cbn. tauto.
+  - apply in_app_or in Hc. destruct Hc as [Hc|Hc].
+    + destruct (stat r =? 3); [|destruct Hc]. destruct Hc as [Hc|[]]. subst c. destruct (cache r =? -1); cbn in H1; discriminate.
+    + destruct (stat r =? 4); [|destruct Hc]. destruct Hc as [Hc|[]]. subst c. cbn in H1. discriminate.
+Qed.
+
+Lemma stepB_watch ign s m i w t n : JB s m -> In w all_watchers -> 0 <= t -> 0 <= n ->
+  stepB_ok ign s m i (AWatch w t n).
+Proof.
+  intros HJ Hiw Ht Hn. destruct (wm s w =? -1) eqn:Ew.
+  2:{ apply stepB_quiet; [exact HJ|cbn; tauto|]. cbn [step]. rewrite Ew. reflexivity. }
+  apply Z.eqb_eq in Ew.
+  set (k := 4 * t + n). set (r := res s k). set (fresh := negb (nonempty (rw r))).
+  set (r' := if fresh then mkR [w] (-1) 1 (-1) false 0
+             else mkR (ins w (rw r)) (cache r) (stat r) (err r) (delign r) (ws r)).
+  set (s1 := mkS (updr (res s) k r') (updz (wm s) w k) (if fresh then updb (has s) t true else has s)
+                 (live s) (sender s) (msgrecv s)).
+  destruct (if fresh then send ign s1 t else (s1, [])) as [s2 rq] eqn:E.
+  assert (C: wm s2 = wm s1 /\ (forall x, core_eq (res s1 x) (res s2 x)) /\ live s2 = live s /\ msgrecv s2 = msgrecv s /\
+             (rq = [] \/ rq = [req_word (res s1) t])).
+  { destruct fresh.
+    - pose proof (send_core ign s1 t) as H. pose proof (send_out ign s1 t) as Ho. pose proof (send_flags ign s1 t) as Hf.
+      rewrite E in H, Ho, Hf. cbn [fst snd] in *. destruct H as [H1 H2]. destruct Hf as [F1 F2]. tauto.
+    - inversion E; subst. split; [reflexivity|]. split; [intro; apply core_refl|]. split; [reflexivity|]. split; [reflexivity|left; reflexivity]. }
+  destruct C as (W & K & L & M & Q).
+  assert (Hk: k <> -1) by (unfold k; lia).
+  destruct (jb_a _ _ HJ) as (mA & HA & _).
+  assert (Hrw1: forall k' x, k' <> -1 -> mem x (rw (res s1 k')) = true -> In x all_watchers /\ wm s1 x = k').
+  { intros k' x Hk' Hm. unfold s1 in *. cbn [res wm] in *. unfold updr in Hm. unfold updz.
+    destruct (k' =? k) eqn:Ek.
+    - apply Z.eqb_eq in Ek. subst k'.
+      assert (Hx: x = w \/ mem x (rw r) = true).
+      { unfold r' in Hm. destruct fresh; cbn [rw mem] in Hm.
+        - rewrite orb_false_r in Hm. apply Z.eqb_eq in Hm. left; symmetry; exact Hm.
+        - rewrite mem_ins in Hm. apply orb_true_iff in Hm. destruct Hm as [Hm|Hm]; [apply Z.eqb_eq in Hm; left; symmetry; exact Hm|right; exact Hm]. }
+      destruct Hx as [->|Hx]; [rewrite Z.eqb_refl; tauto|].
+      destruct (jb_rw _ _ HJ k x Hk Hx) as [A B]. split; [exact A|].
+      destruct (x =? w) eqn:Exw; [reflexivity|exact B].
+    - destruct (jb_rw _ _ HJ k' x Hk' Hm) as [A B]. split; [exact A|].
+      destruct (x =? w) eqn:Exw; [|exact B]. apply Z.eqb_eq in Exw. subst x. exfalso. congruence. }
+  apply (stepB_from ign s m i (AWatch w t n) s2 true (fun _ => if fresh then [] else replay r) w rq); try exact HJ.
+  - cbn; tauto.
+  - cbn [step]. assert (Ew': (wm s w =? -1) = true) by (apply Z.eqb_eq; exact Ew). rewrite Ew'.
+    fold k. fold r. fold fresh. fold r'. fold s1. rewrite E. reflexivity.
+  - (* clause 1 for the new watcher's replay *)
+    intros x Hx. unfold justified. cbn [negb]. unfold wcbs. rewrite W. unfold s1. cbn [wm].
+    rewrite (in_watchers_nonneg w Hiw). cbn [andb]. unfold updz. destruct (x =? w) eqn:Exw.
+    2:{ cbn [negb]. rewrite orb_true_r. reflexivity. }
+    apply Z.eqb_eq in Exw. subst x. assert (Hk': (k =? -1) = false) by (apply Z.eqb_neq; exact Hk).
+    rewrite Hk'. cbn [negb orb]. fold k.
+    assert (Hpeer: forall x, In x all_watchers -> x <> w -> b_wm m x = k -> b_val m x = cache r).
+    { intros x Hxi Hxw Hxk. rewrite (JB_val s m x HJ). rewrite (jb_wm _ _ HJ) in Hxk. rewrite Hxk.
+      assert (Hk'': (k =? -1) = false) by exact Hk'. rewrite Hk''. reflexivity. }
+    destruct fresh eqn:Ef.
+    + (* no state yet: nothing is replayed, and no peer exists *)
+      cbn [forallb andb].
+      assert (Hno: forall x, In x all_watchers -> x <> w -> b_wm m x = k -> False).
+      { intros x Hxi Hxw Hxk. rewrite (jb_wm _ _ HJ) in Hxk.
+        assert (Hne: wm s x <> -1) by congruence. destruct (ja_some _ _ HA x Hne) as (_ & Hm & _).
+        rewrite Hxk in Hm. fold r in Hm. unfold fresh in Ef. destruct (rw r); [discriminate|discriminate]. }
+      assert (Hpc: peer_content m k w = -1).
+      { unfold peer_content.
+        assert (G: forall l, (forall x, In x l -> In x all_watchers) ->
+                   fold_right (fun x acc => if negb (x =? w) && (b_wm m x =? k) && negb (b_val m x =? -1) then b_val m x else acc) (-1) l = -1).
+        { induction l as [|x l IH]; intro Hl; [reflexivity|]. cbn [fold_right].
+          destruct (negb (x =? w) && (b_wm m x =? k) && negb (b_val m x =? -1)) eqn:E2; [|apply IH; intros y Hy; apply Hl; right; exact Hy].
+          exfalso. apply andb_true_iff in E2. destruct E2 as [E2 _]. apply andb_true_iff in E2. destruct E2 as [E21 E22].
+          apply negb_true_iff in E21. apply Z.eqb_neq in E21. apply Z.eqb_eq in E22.
+          apply (Hno x); [apply Hl; left; reflexivity|exact E21|exact E22]. }
+        apply G. intros x Hx'. exact Hx'. }
+      rewrite Hpc. reflexivity.
+    + (* the resource exists: some peer holds its cache *)
+      assert (Hex: exists x, In x all_watchers /\ x <> w /\ b_wm m x = k).
+      { unfold fresh in Ef. apply negb_false_iff in Ef. apply nonempty_mem in Ef. destruct Ef as [x Hm].
+        destruct (jb_rw _ _ HJ k x Hk Hm) as [A B]. exists x. split; [exact A|]. split; [intro; subst; congruence|].
+        rewrite (jb_wm _ _ HJ). exact B. }
+      destruct Hex as (x & Hxi & Hxw & Hxk).
+      apply andb_true_intro. split.
+      * apply forallb_forall. intros c Hc. destruct (fst c =? 1) eqn:Ec; [|reflexivity].
+        apply Z.eqb_eq in Ec. destruct (replay_kinds r c Hc Ec) as [_ Hs]. rewrite Hs.
+        unfold peer_holds. apply existsb_exists. exists x. split; [exact Hxi|].
+        assert (E1: (x =? w) = false) by (apply Z.eqb_neq; exact Hxw). rewrite E1, Hxk, Z.eqb_refl.
+        rewrite (Hpeer x Hxi Hxw Hxk), Z.eqb_refl. reflexivity.
+      * destruct (peer_content_spec m k w (cache r) Hpeer) as [Hp|Hp]; rewrite Hp; [|reflexivity].
+        destruct (cache r =? -1) eqn:Ec; [reflexivity|].
+        unfold replay. rewrite Ec. cbn [app]. apply Z.eqb_refl.
+  - intro x. cbn [opB negb b_wm]. rewrite W. unfold s1. cbn [wm]. unfold updz. fold k.
+    destruct (x =? w); [reflexivity|apply (jb_wm _ _ HJ)].
+  - cbn [opB negb b_live]. rewrite L. apply (jb_live _ _ HJ).
+  - cbn [opB negb b_msg]. rewrite M. apply (jb_msg _ _ HJ).
+  - intros k' x Hk' Hm. rewrite W. destruct (K k') as (C1 & _). rewrite C1 in Hm. apply (Hrw1 k' x Hk' Hm).
+  - intro x. rewrite W. unfold s1. cbn [wm]. unfold updz. destruct (x =? w); [right; unfold k; lia|apply (jb_key _ _ HJ)].
+  - intros m' HJ'. destruct Q as [->| ->]; [reflexivity|]. cbn [map all_true forallb].
+    rewrite (req_ok_core i s1 s2 m' t HJ' Ht); [reflexivity|]. intro x. destruct (K x) as (C1 & _). exact C1.
+Qed.
+
+Lemma stepB_unwatch ign s m i w : JB s m -> stepB_ok ign s m i (AUnwatch w).
+Proof.
+  intro HJ. destruct (wm s w =? -1) eqn:Ew.
+  { apply stepB_quiet; [exact HJ|exact I|]. cbn [step]. rewrite Ew. reflexivity. }
+  apply Z.eqb_neq in Ew.
+  set (k := wm s w). set (r := res s k). set (l := rem w (rw r)).
+  set (r' := if negb (nonempty l) then r_empty else mkR l (cache r) (stat r) (err r) (delign r) (ws r)).
+  set (s1 := mkS (updr (res s) k r') (updz (wm s) w (-1)) (has s) (live s) (sender s) (msgrecv s)).
+  destruct (if negb (nonempty l) then send ign s1 (ktype k) else (s1, [])) as [s2 rq] eqn:E.
+  assert (C: wm s2 = wm s1 /\ (forall x, core_eq (res s1 x) (res s2 x)) /\ live s2 = live s /\ msgrecv s2 = msgrecv s /\
+             (rq = [] \/ rq = [req_word (res s1) (ktype k)])).
+  { destruct (negb (nonempty l)).
+    - pose proof (send_core ign s1 (ktype k)) as H. pose proof (send_out ign s1 (ktype k)) as Ho. pose proof (send_flags ign s1 (ktype k)) as Hf.
+      rewrite E in H, Ho, Hf. cbn [fst snd] in *. destruct H as [H1 H2]. destruct Hf as [F1 F2]. tauto.
+    - inversion E; subst. split; [reflexivity|]. split; [intro; apply core_refl|]. split; [reflexivity|]. split; [reflexivity|left; reflexivity]. }
+  destruct C as (W & K & L & M & Q).
+  assert (Hk0: 0 <= k) by (destruct (jb_key _ _ HJ w) as [H|H]; [contradiction|exact H]).
+  assert (Hrl: rw r' = l).
+  { unfold r'. destruct (nonempty l) eqn:En; cbn [negb rw]; [reflexivity|]. destruct l; [reflexivity|discriminate]. }
+  apply (stepB_from ign s m i (AUnwatch w) s2 true (fun _ => []) (-1) rq); try exact HJ; try exact I.
+  - cbn [step]. assert (Ew': (wm s w =? -1) = false) by (apply Z.eqb_neq; exact Ew). rewrite Ew'.
+    fold k. fold r. fold l. fold r'. fold s1. rewrite E. reflexivity.
+  - intros x _. unfold justified. cbn [negb]. unfold wcbs. destruct (_ || _); reflexivity.
+  - intro x. cbn [opB negb b_wm]. rewrite W. unfold s1. cbn [wm]. unfold updz.
+    destruct (x =? w); [reflexivity|apply (jb_wm _ _ HJ)].
+  - cbn [opB negb b_live]. rewrite L. apply (jb_live _ _ HJ).
+  - cbn [opB negb b_msg]. rewrite M. apply (jb_msg _ _ HJ).
+  - intros k' x Hk' Hm. rewrite W. destruct (K k') as (C1 & _). rewrite C1 in Hm.
+    unfold s1 in *. cbn [res wm] in *. unfold updr in Hm. unfold updz.
+    destruct (k' =? k) eqn:Ek.
+    + apply Z.eqb_eq in Ek. subst k'. rewrite Hrl in Hm. unfold l in Hm. rewrite mem_rem in Hm.
+      apply andb_true_iff in Hm. destruct Hm as [Hm1 Hm2]. rewrite (negb_true_iff _) in Hm1. rewrite Hm1.
+      apply (jb_rw _ _ HJ k x Hk' Hm2).
+    + destruct (jb_rw _ _ HJ k' x Hk' Hm) as [A B]. split; [exact A|].
+      destruct (x =? w) eqn:Exw; [|exact B]. apply Z.eqb_eq in Exw. subst x. exfalso.
+      apply Z.eqb_neq in Ek. apply Ek. symmetry. exact B.
+  - intro x. rewrite W. unfold s1. cbn [wm]. unfold updz. destruct (x =? w); [left; reflexivity|apply (jb_key _ _ HJ)].
+  - intros m' HJ'. destruct Q as [->| ->]; [reflexivity|]. cbn [map all_true forallb].
+    rewrite (req_ok_core i s1 s2 m' (ktype k) HJ'); [reflexivity| |].
+    + unfold ktype. apply Z.div_pos; lia.
+    + intro x. destruct (K x) as (C1 & _). exact C1.
+Qed.
+
+Lemma stepB_all ign s m i a : JB s m -> aop_wf a -> stepB_ok ign s m i a.
+Proof.
+  intros HJ Hwf. destruct a; cbn [aop_wf] in Hwf.
+  - destruct Hwf as (A & B & C). apply stepB_watch; assumption.
+  - apply stepB_unwatch; exact HJ.
+  - apply stepB_allow; exact HJ.
+  - apply stepB_fail; exact HJ.
+  - destruct Hwf as [A B]. apply stepB_resp; assumption.
+  - apply stepB_break; exact HJ.
+  - apply stepB_expire; exact HJ.
+  - apply stepB_quiet; [exact HJ|exact I|reflexivity].
+Qed.
+
+Lemma bridge_B ign : forall ops s m i, JB s m ->
+  all_true (clauses_B ign m i ops (run_from ign s ops)) = true.
+Proof.
+  induction ops as [|op ops IH]; intros s m i HJ; [reflexivity|].
+  destruct (stepB_all ign s m i (decode op) HJ (decode_wf op)) as (s' & ap & ws & rq & m' & cl & Hs & Hlen & Hw & Hc & Hq & HJ').
+  cbn [run_from clauses_B]. rewrite Hs. unfold mk_out. cbn [app].
+  rewrite <- app_assoc. rewrite <- Hlen, take_words_app, Nat2Z.id, take_words_app, z2b_b2z, Hw.
+  rewrite !all_true_app, Hc, Hq. cbn [andb]. apply IH. exact HJ'.
+Qed.
+
+Lemma model_trace_holds : forall cfg ops, exists obs, run cfg ops = Some obs /\ holds_b cfg ops obs = true.
+Proof.
+  intros cfg ops. eexists. split; [reflexivity|]. unfold holds_b, clauses.
+  fold (all_true (clauses_A monA_init 0 ops (run_from (is_ign cfg) init ops) ++
+                  clauses_B (is_ign cfg) monB_init 0 ops (run_from (is_ign cfg) init ops))).
+  rewrite all_true_app. apply andb_true_intro. split.
+  - apply (bridge_A (is_ign cfg) ops init monA_init 0 JA_init).
+  - apply (bridge_B (is_ign cfg) ops init monB_init 0 JB_init).
+Qed.
